@@ -231,6 +231,9 @@ def make_object(rng, i):
         dt = [np.float64, np.float32, np.uint8][(i // 18) % 3]
         mk = ["all", "random", "halfplane", "single", "block"][(i // 54) % 5]
         shp = tuple(int(v) for v in rng.integers(2, 9, size=d))
+        if rng.random() < 0.2:
+            # an axis of length one (a single slice cut out of a volume, a one-pixel-wide strip)
+            shp = tuple(1 if k == j_ else v for k, v in enumerate(shp)) if (j_ := int(rng.integers(0, d))) >= 0 else shp
         if cls == "MaskedImage" and i % 149 == 4:
             # a large image whose mask lacks one or two pixels only (dead pixels of a sensor)
             import menpo.image as mi
@@ -277,7 +280,10 @@ def random_vector(rng, o, n):
     if isinstance(o, mi.BooleanImage):
         return rng.random(n) < 0.5
     if isinstance(o, (mt.UniformScale, mt.NonUniformScale)):
-        return rng.uniform(0.3, 3.0, n)
+        v = rng.uniform(0.3, 3.0, n)
+        if rng.random() < 0.2 and n:
+            v[rng.integers(0, n)] = 0.0          # a collapsed axis is a legal (if degenerate) scale: the constructors accept it
+        return v
     v = rng.normal(size=n) * 3
     k = int(rng.integers(0, 4))
     if k == 1:
